@@ -14,7 +14,13 @@ def consts(ctx):
     ctx.gen_consts_go("p2p/host/basic", ["maxObservedAddrsPerListenAddr"])
 
 
+_chk = []
+
+
 def harness(ctx, casefile, tier, seed):
+    if ctx.tier == "thorough" and not _chk:
+        _chk.append(1)
+        ctx.coqchk(["Verif.c17.Properties"])
     return ctx.go_test(PKG, "TestVerifC17$", OVERLAY,
                        env={"VERIF_OUT": casefile, "VERIF_TIER": tier, "VERIF_SEED": str(seed)}, timeout=1500)
 
@@ -32,7 +38,7 @@ def replay_harness(ctx, casefile, toks):
 
 def parse(t):
     """decode a case line into (cfg, steps); steps = [(op, fors, all)]"""
-    i = 2
+    i = 3
     def pairs(i):
         k = t[i]; i += 1
         ps = [(t[i + 2 * j], t[i + 2 * j + 1]) for j in range(k)]
@@ -55,7 +61,7 @@ def parse(t):
             fors.append(t[i:i + k]); i += k
         al, i = pairs(i)
         steps.append((op, fors, al))
-    return {"thresh": t[1], "listen": listen, "queries": queries, "conns": conns}, steps
+    return {"thresh": t[1], "mode": t[2], "listen": listen, "queries": queries, "conns": conns}, steps
 
 
 def fmt_op(op):
@@ -70,7 +76,7 @@ def describe(t):
         cfg, steps = parse(t)
     except Exception:
         return {"raw": t[:120]}
-    return {"thresh": cfg["thresh"], "listen(tw,rest)": cfg["listen"], "queries(tw,rest)": cfg["queries"],
+    return {"thresh": cfg["thresh"], "mode": "eventbus+notifiee" if cfg["mode"] else "direct calls", "listen(tw,rest)": cfg["listen"], "queries(tw,rest)": cfg["queries"],
             "conns(ltw,fam,proto,rkind,ip...)": [list(c) for c in cfg["conns"]],
             "steps": ["%s -> AddrsFor=%s Addrs0=%s" % (fmt_op(o), f, a) for o, f, a in steps[:80]]}
 
